@@ -11,7 +11,7 @@ RULE = (
     "positions), 1-4 declared fields, IsUnique key sets of 1-3 fields, DistinctCount with each of < <= == != >= > and "
     "thresholds 0-4, both declaration orders of the two checks, the three error modes, interleaved rows rejected for a "
     "field error or a wrong item count; thorough additionally enumerates all sequences of up to 5 rows over 5 row kinds. "
-    "Observed through cutplace.Reader (rows, close, error.location, see_also_location) and compared with M-checks. A "
+    "Every third case creates the readers of its three runs (one per error mode) up front on one CID and reads them one after the other. Observed through cutplace.Reader (rows, close, error.location, see_also_location) and compared with M-checks. A "
     "case is (check configuration, row sequence, mode), distinct by digest, non-trivial when a duplicate key occurs or "
     "the distinct count is within 1 of the threshold."
 )
@@ -83,10 +83,19 @@ class Collector(object):
         self.violations.append((key, case, what, expected, observed))
 
 
-def check_case(ctx, model, rows, mode):
+def readers_up_front(model, rows):
+    """One CID, one Reader per mode, all created before the first of them reads: every data set is decided on its own,
+    also when the readers of several data sets exist side by side and are read one after the other."""
+    from cutplace import validio
+
+    cid = gen.load_cid(model)
+    return cid, {mode: validio.Reader(cid, io.StringIO(storage.delimited_text(rows), newline=""), on_error=mode) for mode in MODES}
+
+
+def check_case(ctx, model, rows, mode, up_front=None):
     from cutplace import errors
 
-    case = {"cid": model.to_json(), "rows": rows, "mode": mode}
+    case = {"cid": model.to_json(), "rows": rows, "mode": mode, "readers_created_up_front": up_front is not None}
     expected = RM.expected_run(model, rows)
     strict = False
     if expected is None:
@@ -101,14 +110,16 @@ def check_case(ctx, model, rows, mode):
     aborted = RM.expected_run(model, rows, rollback=strict, stop_at_first_rejection=True)
     expected["end_after_abort"] = aborted["state"].end_verdict() if aborted is not None else None
     try:
-        cid = gen.load_cid(model)
+        cid = up_front[0] if up_front is not None else gen.load_cid(model)
     except errors.InterfaceError as error:
         ctx.case(case, True)
         ctx.violation("C05:cid-refused", case, "generated valid CID refused", observed=error)
         return
     source = io.StringIO(storage.delimited_text(rows), newline="")
     try:
-        obs = gen.read_with_reader(cid, source, mode=mode)
+        if up_front is not None:
+            ctx.count("runs.reader-created-before-other-runs-on-the-cid")
+        obs = gen.read_with_reader(cid, source, mode=mode, reader=up_front[1][mode] if up_front is not None else None)
     except Exception as error:
         ctx.case(case, True)
         ctx.violation("C05:crash:%s" % type(error).__name__, case, "reader failed with an internal error", observed=error)
@@ -120,6 +131,15 @@ def check_case(ctx, model, rows, mode):
             near = True
     ctx.case(case, dup or near)
     ctx.count("runs.%s" % mode)
+    for item in obs.items:
+        # "the error is located at the later row": also when the caller looks at it after having read on
+        if item[0] == "error":
+            ctx.count("errors.reinspected-after-the-run")
+            now = gen.snapshot(item[1])
+            if now != item[2]:
+                ctx.violation("C05:error-changed-after-reading-on", case, "a reported error no longer names its row and the row of the first occurrence after the reader moved on",
+                              expected=item[2], observed=now)
+                return
     first = Collector(ctx, True)
     compare(first, errors, case, model, obs, expected, mode)
     if first.violations and strict:
@@ -214,8 +234,14 @@ def run(ctx):
             continue
         rng = ctx.rng("case", i)
         model, rows = gen_case(rng)
+        up_front = None
+        if i % 3 == 0:
+            try:
+                up_front = readers_up_front(model, rows)
+            except Exception:
+                up_front = None  # a refused CID is reported by check_case
         for mode in MODES:
-            check_case(ctx, model, rows, mode)
+            check_case(ctx, model, rows, mode, up_front)
     if ctx.tier == "thorough":
         kinds = [["a", "a"], ["a", "b"], ["b", "a"], ["b", "b"], ["a", "BAD"]]
         fields = [{"name": "k0", "type": "Choice", "empty": False, "length": "", "rule": "a, b"},
@@ -238,4 +264,10 @@ def run(ctx):
 
 
 def replay(ctx, case):
-    check_case(ctx, RM.CidModel.from_json(case["cid"]), case["rows"], case["mode"])
+    model = RM.CidModel.from_json(case["cid"])
+    if case.get("readers_created_up_front"):
+        up_front = readers_up_front(model, case["rows"])
+        for mode in MODES:
+            check_case(ctx, model, case["rows"], mode, up_front)
+        return
+    check_case(ctx, model, case["rows"], case["mode"])
